@@ -111,6 +111,12 @@ CLAIMED = {
    text="Bounded model checking: on every connected topology up to the bound and for all positive conductances within the symbolic budget, effective_resistance is symmetric, zero only on the diagonal, satisfies the triangle inequality, never exceeds the resistance of a connecting link (paths follow with the triangle inequality), equals the series sum on trees and the parallel law on cycles, and satisfies Foster's theorem; average/diameter/closeness, admittive degree, neighbour degree and clustering equal their defining sums; vertex and edge current-flow betweenness equal their defining sums for every admittance and R matrix (kernels) and receive the right matrices from the public methods; after update_resistances every quantity equals that of the new resistances and scales linearly with a common factor.",
    note="Bounds: n=3 and sparse n=4 with all conductances symbolic, all n=4 classes with two symbolic conductances, n=5 classes with one; kernels N<=3 (4 thorough). Exact reals: pinv's rounding and the float32 copies are outside; complex impedances outside.",
    ref="DESIGN.md §3 C18"),
+ "C10": dict(
+   engine="K+C+P",
+   technique="bounded symbolic execution: Cython parse-tree interpreter on the funcnet cross-correlation / symmetrisation kernels, clang-AST interpreter on the C surrogate-test and histogram mutual-information routines (log uninterpreted; case split over bin patterns with the symbol cells rewritten to constants), proxy-value execution of the Spearman rank transform and of the matrices handed to numpy.corrcoef; every comparison with the reference statistic is a z3 query (LRA/NRA/UF); sat models replayed on the compiled kernels / real classes against NumPy and SciPy references",
+   text="Bounded model checking: for every standardised array within the bound the lag function, its value and lag at the absolute maximum (both lag modes consistent) and the symmetrised matrices equal their definitions; the surrogate Pearson test equals the mean product; both C mutual-information routines assign every sample its bin and return sum p_lm log(p_lm/(p_l p_m)) of the joint histogram for every data set within the bound (symmetric where defined); the Spearman rank transform yields the textbook ranks for every ordering including ties and hands series as rows to corrcoef; the pure-Python and the compiled cross correlation agree at lag 0.",
+   note="Bounds: N<=3, tau_max<=2, window<=3 (kernels); N<=3, T<=3 (Pearson test); N=2, T<=3, 2 bins (MI; more in thorough); T<=4 x N<=2 (ranks). Exact reals (single-precision rounding of results outside); knn and gaussian estimators, information_transfer, partial correlation and the square-root standardisation inside cross_correlation are outside (DESIGN.md).",
+   ref="DESIGN.md §3 C10"),
 }
 NA_DEFAULT = "check not built yet in this round (see DESIGN.md §6 for the planned obligation)"
 def main():
